@@ -2499,3 +2499,253 @@ mod tests {
         DatabaseKeyIndex::new(IngredientIndex::new(ingredient), id)
     }
 }
+
+/// Verification hook H3: the edge codec (`QueryEdge`, `PackedQueryEdge`, origin tag bytes,
+/// `OriginAndExtra` construction and decoding) and the cancellation token byte on plain
+/// integers, for differential testing against the Coq model. Add-only; never compiled
+/// without `--cfg salsa_rs_salsa_verif`.
+#[cfg(salsa_rs_salsa_verif)]
+pub(crate) mod verif_k {
+    use super::*;
+
+    /// (index, generation, raw ingredient word incl. tag)
+    pub type RawEdge = (u32, u32, u32);
+    /// (ingredient, index, generation)
+    pub type RawKey = (u32, u32, u32);
+
+    pub(crate) fn vk_key(key: RawKey) -> DatabaseKeyIndex {
+        // SAFETY: the caller supplies `index < Id::MAX_U32`.
+        let id = unsafe { Id::from_index(key.1) }.with_generation(key.2);
+        // SAFETY: the caller supplies `ingredient <= IngredientIndex::MAX_INDEX`.
+        DatabaseKeyIndex::new(unsafe { IngredientIndex::new_unchecked(key.0) }, id)
+    }
+    pub(crate) fn vk_key_parts(key: DatabaseKeyIndex) -> RawKey {
+        (
+            key.ingredient_index().as_u32(),
+            key.key_index().index(),
+            key.key_index().generation(),
+        )
+    }
+    pub(crate) fn vk_raw_edge(edge: RawEdge) -> QueryEdge {
+        QueryEdge {
+            index: edge.0,
+            generation: edge.1,
+            // SAFETY: used only to exercise the integer kernels on arbitrary words.
+            ingredient: unsafe { IngredientIndex::new_unchecked(edge.2) },
+        }
+    }
+    pub(crate) fn vk_edge_parts(edge: QueryEdge) -> RawEdge {
+        (edge.index, edge.generation, edge.ingredient.as_u32())
+    }
+    pub(crate) fn vk_edge_kind(edge: QueryEdge) -> u8 {
+        match edge.kind() {
+            QueryEdgeKind::Input => 0,
+            QueryEdgeKind::Output => 1,
+        }
+    }
+    pub(crate) fn vk_edge_id_bits(edge: QueryEdge) -> u64 {
+        edge.id().as_bits()
+    }
+    pub(crate) fn vk_packed_new(edge: RawEdge) -> Option<(u32, u32)> {
+        PackedQueryEdge::new(vk_raw_edge(edge)).map(|packed| (packed.index, packed.metadata))
+    }
+    pub(crate) fn vk_packed_edge(index: u32, metadata: u32) -> RawEdge {
+        vk_edge_parts(PackedQueryEdge { index, metadata }.edge())
+    }
+    pub(crate) fn vk_packed_consts() -> [u32; 3] {
+        [
+            PackedQueryEdge::INGREDIENT_SHIFT,
+            PackedQueryEdge::GENERATION_MASK,
+            PackedQueryEdge::INGREDIENT_MASK,
+        ]
+    }
+
+    /// Tag byte of a derived origin and what it decodes to:
+    /// (byte, decoded kind discriminant, decoded edge layout discriminant, decoded extra layout).
+    pub(crate) fn vk_derived_tag(untracked: bool, wide: bool, with_extra: bool) -> [u8; 4] {
+        let kind = if untracked {
+            DerivedOriginKind::DerivedUntracked
+        } else {
+            DerivedOriginKind::Derived
+        };
+        let layout = if wide {
+            QueryEdgeLayout::Wide
+        } else {
+            QueryEdgeLayout::Packed
+        };
+        let origin = QueryOriginTag::derived(kind, layout);
+        let tag = if with_extra {
+            OriginAndExtraTag::with_extra(origin)
+        } else {
+            OriginAndExtraTag::without_extra(origin)
+        };
+        [
+            tag.0,
+            tag.origin().kind() as u8,
+            tag.origin().layout() as u8,
+            tag.layout() as u8,
+        ]
+    }
+    pub(crate) fn vk_tag_consts() -> [u8; 3] {
+        [
+            QueryOriginTag::KIND_MASK,
+            QueryOriginTag::LAYOUT_MASK,
+            OriginAndExtraTag::WITH_EXTRA_MASK,
+        ]
+    }
+
+    // ---- cancellation token byte
+    fn token(byte: u8) -> CancellationToken {
+        let token = CancellationToken::default();
+        token.0.store(byte, Ordering::Relaxed);
+        token
+    }
+    fn token_byte(token: &CancellationToken) -> u8 {
+        token.0.load(Ordering::Relaxed)
+    }
+    pub(crate) fn vk_tok_consts() -> [u8; 2] {
+        [
+            CancellationToken::CANCELLED_MASK,
+            CancellationToken::DISABLED_MASK,
+        ]
+    }
+    pub(crate) fn vk_tok_cancel(byte: u8) -> u8 {
+        let token = token(byte);
+        token.cancel();
+        token_byte(&token)
+    }
+    pub(crate) fn vk_tok_is_cancelled(byte: u8) -> bool {
+        token(byte).is_cancelled()
+    }
+    pub(crate) fn vk_tok_set_disabled(byte: u8, disabled: bool) -> (bool, u8) {
+        let token = token(byte);
+        let previous = token.set_cancellation_disabled(disabled);
+        (previous, token_byte(&token))
+    }
+    pub(crate) fn vk_tok_should_trigger(byte: u8) -> bool {
+        token(byte).should_trigger_local_cancellation()
+    }
+    pub(crate) fn vk_tok_reset(byte: u8) -> u8 {
+        let token = token(byte);
+        token.reset();
+        token_byte(&token)
+    }
+
+    // ---- stored origins
+
+    /// What a stored origin decodes to.
+    #[derive(Debug, Clone, PartialEq, Eq)]
+    pub struct OriginReport {
+        /// `QueryOriginKind` discriminant: 1 assigned, 3 derived, 2 derived-untracked.
+        pub kind: u8,
+        /// Whether the edge slice uses the packed layout.
+        pub packed: bool,
+        /// The assigning key of an assigned origin.
+        pub assigned: Option<RawKey>,
+        /// `origin().edges().iter()` as (index, generation, raw ingredient word).
+        pub edges: Vec<RawEdge>,
+        /// `origin().inputs()`.
+        pub inputs: Vec<RawKey>,
+        /// `origin().outputs()`.
+        pub outputs: Vec<RawKey>,
+        /// `extra()`: (iteration stamp bits, number of cycle heads) if present.
+        pub extra: Option<(u16, usize)>,
+    }
+
+    /// Extra data selected by `flags`: bit 0 = `force_extra`, bit 1 = a non-default iteration
+    /// stamp, bit 2 = one cycle head. `flags == 0` yields no extra data.
+    pub(crate) fn vk_extra(flags: u8) -> QueryRevisionsExtra {
+        let iteration = if flags & 2 != 0 {
+            IterationStamp::initial(5)
+        } else {
+            IterationStamp::default()
+        };
+        let cycle_heads = if flags & 4 != 0 {
+            CycleHeads::initial(vk_key((1, 0, 0)), iteration)
+        } else {
+            empty_cycle_heads().clone()
+        };
+        QueryRevisionsExtra::new(
+            #[cfg(feature = "accumulator")]
+            AccumulatedMap::default(),
+            ThinVec::default(),
+            cycle_heads,
+            iteration,
+            flags & 1 != 0,
+        )
+    }
+
+    pub(crate) fn vk_report(origin_and_extra: &OriginAndExtra) -> OriginReport {
+        let origin = origin_and_extra.origin();
+        let (kind, assigned) = match origin {
+            QueryOriginRef::Assigned(key) => (QueryOriginKind::Assigned, Some(vk_key_parts(key))),
+            QueryOriginRef::Derived(_) => (QueryOriginKind::Derived, None),
+            QueryOriginRef::DerivedUntracked(_) => (QueryOriginKind::DerivedUntracked, None),
+        };
+        let packed = matches!(origin.edges().data, QueryEdgesData::Packed(_))
+            && !matches!(origin, QueryOriginRef::Assigned(_));
+        OriginReport {
+            kind: kind as u8,
+            packed,
+            assigned,
+            edges: origin.edges().iter().map(vk_edge_parts).collect(),
+            inputs: origin.inputs().map(vk_key_parts).collect(),
+            outputs: origin.outputs().map(vk_key_parts).collect(),
+            extra: origin_and_extra.extra().map(|extra| {
+                (
+                    crate::cycle::verif_k::vk_stamp_raw(extra.iteration.load()),
+                    extra.cycle_heads.iter().count(),
+                )
+            }),
+        }
+    }
+
+    /// `kind`: 3 = derived, 2 = derived-untracked. Edges are (is_output, key).
+    pub(crate) fn vk_build_derived(
+        kind: u8,
+        edges: &[(bool, RawKey)],
+        extra_flags: u8,
+    ) -> OriginAndExtra {
+        let edges: Vec<QueryEdge> = edges
+            .iter()
+            .map(|&(is_output, key)| {
+                if is_output {
+                    QueryEdge::output(vk_key(key))
+                } else {
+                    QueryEdge::input(vk_key(key))
+                }
+            })
+            .collect();
+        if kind == QueryOriginKind::DerivedUntracked as u8 {
+            OriginAndExtra::derived_untracked(edges.into_iter(), vk_extra(extra_flags))
+        } else {
+            OriginAndExtra::derived(edges.into_iter(), vk_extra(extra_flags))
+        }
+    }
+
+    pub(crate) fn vk_build_assigned(key: RawKey, extra_flags: u8) -> OriginAndExtra {
+        match vk_extra(extra_flags).0 {
+            Some(extra) => OriginAndExtra::assigned_with_extra(vk_key(key), extra),
+            None => OriginAndExtra::assigned(vk_key(key)),
+        }
+    }
+
+    #[cfg(not(feature = "persistence"))]
+    pub(crate) fn vk_clear_edges(origin_and_extra: &mut OriginAndExtra) {
+        origin_and_extra.clear_edges();
+    }
+
+    #[cfg(feature = "persistence")]
+    pub(crate) fn vk_persistent_origin(
+        origin_and_extra: &OriginAndExtra,
+    ) -> super::persistence::PersistentQueryOrigin {
+        use super::persistence::PersistentQueryOrigin;
+        match origin_and_extra.origin() {
+            QueryOriginRef::Assigned(key) => PersistentQueryOrigin::assigned(key),
+            QueryOriginRef::Derived(edges) => PersistentQueryOrigin::derived(edges.iter()),
+            QueryOriginRef::DerivedUntracked(edges) => {
+                PersistentQueryOrigin::derived_untracked(edges.iter())
+            }
+        }
+    }
+}
